@@ -39,7 +39,53 @@ def decode_meta(raw):
     top, diags = rb.decode(raw)
     if top.kind != "dict" or top.get(b"info") is None or top.get(b"info").kind != "dict":
         raise rb.BencodeError("no info dict")
-    return top, top.get(b"info"), diags
+    info = top.get(b"info")
+    bad = _shape_problem(info)
+    if bad:
+        # lengths that are negative or no integers, a files list without paths ...: what the tool wrote is no metafile
+        # the reference computations could be applied to - reported as a violation by every caller, never a crash here
+        raise rb.BencodeError("malformed info dictionary: " + bad)
+    return top, info, diags
+
+
+def _shape_problem(info):
+    def nonneg(n):
+        return n is not None and n.kind == "int" and n.value >= 0
+    pl = info.get(b"piece length")
+    if pl is not None and not (pl.kind == "int" and pl.value > 0):
+        return "piece length is not a positive integer"
+    if info.get(b"length") is not None and not nonneg(info.get(b"length")):
+        return "length is not a non-negative integer"
+    files = info.get(b"files")
+    if files is not None:
+        if files.kind != "list":
+            return "files is not a list"
+        for f in files.value:
+            if f.kind != "dict" or not nonneg(f.get(b"length")):
+                return "a files entry has no non-negative integer length"
+            pth = f.get(b"path")
+            if pth is None or pth.kind != "list" or any(c.kind != "str" for c in pth.value):
+                return "a files entry has no path list of strings"
+    pcs = info.get(b"pieces")
+    if pcs is not None and pcs.kind != "str":
+        return "pieces is not a string"
+
+    def walk(node, depth=0):
+        if node.kind != "dict" or depth > 200:
+            return "file tree node is not a dictionary"
+        for k, _, v in node.value:
+            if k == b"":
+                if v.kind != "dict" or not nonneg(v.get(b"length")):
+                    return "a file tree leaf has no non-negative integer length"
+            else:
+                r = walk(v, depth + 1)
+                if r:
+                    return r
+        return None
+    ft = info.get(b"file tree")
+    if ft is not None:
+        return walk(ft)
+    return None
 
 
 def _int(node, what, viol):
